@@ -116,7 +116,10 @@ func injectFault(r *Rng, c *SrvConf, pc *pb.ServerConfig, selfIP *net.IP) string
 		pc.Dns = append(pc.Dns, badIP())
 		return "dns"
 	case "dns-empty-in-list":
-		pc.Dns = []string{"8.8.8.8", ""}
+		pc.Dns = Pick(r, []string{"8.8.8.8", ""}, []string{"", "8.8.8.8"}, []string{"", ""}, []string{"", "8.8.8.8", "1.1.1.1"})
+		if r.Bool() {
+			pc.Ntp, pc.Dns = pc.Dns, nil
+		}
 		return "dns-empty-in-list"
 	case "ntp":
 		pc.Ntp = append([]string{badIP()}, pc.Ntp...)
@@ -167,7 +170,7 @@ func injectFault(r *Rng, c *SrvConf, pc *pb.ServerConfig, selfIP *net.IP) string
 		pc.Client["02:00:00:00:cc:02"] = &pb.ClientConfig{Router: badIP()}
 		return "c-router"
 	case "c-dns":
-		pc.Client["02:00:00:00:cc:03"] = &pb.ClientConfig{Dns: []string{"8.8.8.8", badIP()}}
+		pc.Client["02:00:00:00:cc:03"] = &pb.ClientConfig{Dns: Pick(r, []string{"8.8.8.8", badIP()}, []string{"", "8.8.8.8"}, []string{"8.8.8.8", ""})}
 		return "c-dns"
 	case "c-ntp":
 		pc.Client["02:00:00:00:cc:04"] = &pb.ClientConfig{Ntp: []string{badIP()}}
